@@ -164,19 +164,13 @@ theorem recoverStore_result (sj sb : Store) (hb : MetaInv sb) (now : Int) :
 
 theorem validateMatch_ok (s s' : Store) (x : Option String) :
     ((match x with
-      | some "panic" => (s, "panic")
       | some e => (s, "err:" ++ e)
       | none => (s', "ok")) : Store × String).2 = "ok" ↔ x = none := by
   cases x with
   | none => simp
   | some e =>
     simp only [reduceCtorEq, iff_false]
-    split
-    · intro h; exact absurd (show ("panic" : String) = "ok" from h) (by decide)
-    · rename_i e' _ heq
-      cases heq
-      exact err_ne_ok _
-    · rename_i heq; cases heq
+    exact err_ne_ok _
 
 /-- outcome of `UpgradeClient`: rejected (store untouched, result not "ok"), or success -/
 theorem upgradeStore_result (s : Store) (now : Int) (self : Height) (u : UpgradeReq) :
@@ -218,7 +212,6 @@ theorem upgradeStore_result (s : Store) (now : Int) (self : Height) (u : Upgrade
                   · by_cases a6 : u.proofConsOK = true
                     · have key2 : verifyUpgradeAndUpdateState cs s u now self =
                           (match (upgradedClient cs u).validate with
-                            | some "panic" => (s, "panic")
                             | some e => (s, "err:" ++ e)
                             | none => (upgradedStore cs s u now self, "ok")) := by
                         unfold verifyUpgradeAndUpdateState
@@ -233,7 +226,7 @@ theorem upgradeStore_result (s : Store) (now : Int) (self : Height) (u : Upgrade
                         left
                         have ok_iff := validateMatch_ok s (upgradedStore cs s u now self) (upgradedClient cs u).validate
                         refine ⟨?_, ?_, ?_⟩
-                        · rw [key, key2, hv]; split <;> first | rfl | (rename_i heq; cases heq)
+                        · rw [key, key2, hv]
                         · rw [key, key2]; intro h; have := ok_iff.mp h; rw [hv] at this; cases this
                         · rintro ⟨cs', hc', _, _, _, _, _, _, _, _, _, h⟩; cases hc'; rw [hv] at h; cases h
                     · left
